@@ -36,7 +36,14 @@ func registerNatives(m *Machine) {
 	registerMisc(m)
 	registerFmt(m)
 	registerBinary(m)
+	registerReflect(m)
+	for _, f := range extraNatives {
+		f(m)
+	}
 }
+
+// extraNatives lets additional files register models without touching this one.
+var extraNatives []func(*Machine)
 
 func registerVrt(m *Machine) {
 	mk := func(kind string, w int) nativeFn {
@@ -134,6 +141,10 @@ func registerVrt(m *Machine) {
 	}
 	m.natives[vrtPkg+"Ite"] = func(m *Machine, args []Value) Value {
 		return m.ctx.Ite(args[0].(*sym.Term), args[1].(*sym.Term), args[2].(*sym.Term))
+	}
+	m.natives[vrtPkg+"LenientFmt"] = func(m *Machine, args []Value) Value {
+		m.lenientFmt = m.ctxBool(args[0])
+		return nil
 	}
 	m.natives[vrtPkg+"Symbolic"] = func(m *Machine, args []Value) Value { return m.ctx.True }
 	m.natives[vrtPkg+"Done"] = func(m *Machine, args []Value) Value { return nil }
@@ -358,7 +369,7 @@ func registerMisc(m *Machine) {
 			if x.T == nil {
 				return m.ctx.False
 			}
-			un := m.prog.LookupMethod(x.T, nil, "Unwrap")
+			un := m.lookupMethod(x.T, "Unwrap")
 			if un == nil {
 				return m.ctx.False
 			}
